@@ -343,7 +343,7 @@ class Sched:
                 t.sem.release()
         for t in self.threads[1:]:
             if t.real is not None:
-                t.real.join(2.0)
+                t.real.join(10.0)
                 if t.real.is_alive():
                     self.leaked += 1
 
@@ -597,13 +597,14 @@ class FakeThreading:
 
 
 class FakeTime:
+    # as on a real system the wall clock and the monotonic clocks have unrelated epochs
     @staticmethod
     def time():
-        return 1_000_000.0 + cur().now
+        return 1_700_000_000.0 + cur().now
 
     @staticmethod
     def monotonic():
-        return cur().now
+        return 4321.0 + cur().now
 
     perf_counter = monotonic
 
